@@ -132,10 +132,9 @@ pub fn drive_boxes(args: &[String]) {
     }
     let rj2 = |v: Vec2<i32>| json!([v.x, v.y]);
     if full {
-        let mut k = 0usize;
-        for a in &all2 { for b in &all2 {
-            k += 1;
-            if k % shards != shard { continue; }
+        for (ia, a) in all2.iter().enumerate() { for (ib, b) in all2.iter().enumerate() {
+            // pairs are spread over the shards by a mixing function, so that every shard sees every kind of pair
+            if (ia * 31 + ib * 17 + (ia / 16) * 7 + ib / 16) % shards != shard { continue; }
             pair_ops!(&mut d, *a, *b, j2, valid2, pos2, contains_aabr, collides_with_aabr, collision_vector_with_aabr, into_rect, contains_rect, collides_with_rect, collision_vector_with_rect, rj2);
         } }
     } else {
